@@ -34,6 +34,29 @@ func findGraph(g *Graph, path []string) *Graph {
 	return nil
 }
 
+// isToolsGraph: path leads (through sub-graph nodes) to a ToolsNode node of the case, which the
+// harness builds as a sub-graph pre -> tn -> post of its own.
+func isToolsGraph(g *Graph, path []string) bool {
+	if len(path) == 0 {
+		return false
+	}
+	for _, st := range g.Stages {
+		for _, n := range st {
+			if n.Key != path[0] {
+				continue
+			}
+			switch n.Kind {
+			case "tools":
+				return len(path) == 1
+			case "sub":
+				return isToolsGraph(n.Sub, path[1:])
+			}
+			return false
+		}
+	}
+	return false
+}
+
 func findNode(g *Graph, path []string) (*Node, *ToolSpec) {
 	if len(path) == 0 {
 		return nil, nil
@@ -319,9 +342,17 @@ func oracle(c *Case, o *Obs) (string, string) {
 		return lostMsg, "message-lost-cause"
 	}
 	if p.Is[2] && (hasLimit(c.G) || c.RtMax > 0) {
+		// the path names the nested graph whose limit was exceeded (sub-graph nodes from the top)
+		if g := findGraph(c.G, p.MsgPath); g == nil || !(g.Loop || g.Max > 0 || (len(p.MsgPath) == 0 && c.RtMax > 0)) {
+			return fmt.Sprintf("the step limit was exceeded, but the path %v the error names does not lead to a graph with a step limit that can be exceeded: %s", p.MsgPath, p.Msg), "limit-wrong-graph"
+		}
 		return "", ""
 	}
 	if p.Is[3] && cancelled {
+		// a run loop notices the cancellation: the path names that (nested) graph
+		if findGraph(c.G, p.MsgPath) == nil && !isToolsGraph(c.G, p.MsgPath) {
+			return fmt.Sprintf("the context was cancelled, but the path %v the error names does not lead to a graph: %s", p.MsgPath, p.Msg), "cancel-wrong-graph"
+		}
 		return "", ""
 	}
 	if rerun && p.Interrupt && !p.Found {
